@@ -5,6 +5,7 @@ import (
 	"encoding/json"
 	"fmt"
 	"os"
+	"os/exec"
 	"path/filepath"
 	"runtime/debug"
 	"strings"
@@ -70,6 +71,9 @@ func Run(o Options) (code int) {
 	c.Seed = o.Seed
 	c.NoEvidence = o.NoEvidence
 	ch.Run(c, o)
+	if o.Tier == "thorough" && !o.NoEvidence {
+		thorough(c, ch, o)
+	}
 	known, err := core.LoadKnown(filepath.Join(o.Verif, "KNOWN_FINDINGS.txt"))
 	if err != nil {
 		fmt.Printf("sfcheck: cannot read KNOWN_FINDINGS.txt: %v\n", err)
@@ -138,4 +142,165 @@ func Replay(path, repo, verif string) int {
 	}
 	fmt.Printf("obligation %s no longer exists on the current tree\n", rec.Obligation.Key)
 	return 0
+}
+
+// thorough adds, to the obligations of the default configuration, (a) the same rules evaluated on the other build
+// configurations of the repository and (b) the checker-sensitivity table: every seeded change recorded for this property
+// under /verif/seeded is applied to a scratch copy of the CURRENT working tree of the repository and the quick check is run
+// on it in a separate process. Nothing of the repository is executed. An undetected seeded change is reported in the
+// evidence as a weakness of the checker; it is not a violation of the repository.
+func thorough(c *core.Ctx, ch *Check, o Options) {
+	type cfgRes struct {
+		Name        string `json:"name"`
+		Obligations int    `json:"obligations"`
+		Discharged  int    `json:"discharged"`
+		Error       string `json:"error,omitempty"`
+	}
+	var cfgs []cfgRes
+	base := map[string]string{}
+	for _, ob := range c.Obls {
+		base[ob.Key] = ob.Verdict
+	}
+	dis := 0
+	for _, ob := range c.Obls {
+		if ob.Verdict == core.Discharged {
+			dis++
+		}
+	}
+	cfgs = append(cfgs, cfgRes{Name: c.Cfg.Name, Obligations: len(c.Obls), Discharged: dis})
+	for _, cfg := range []core.Config{
+		{Name: "GOARCH=386+verif", Tags: "verif", Env: []string{"GOARCH=386", "GOOS=linux"}},
+		{Name: "default (no build tag)"},
+	} {
+		c2, err := core.Load(o.Repo, o.Verif, o.Prop, o.Tier, cfg, ch.NeedSSA)
+		if err != nil {
+			cfgs = append(cfgs, cfgRes{Name: cfg.Name, Error: err.Error()})
+			c.Ob("configuration", "", cfg.Name, 0).Unknown("the repository does not load in this configuration: %v", err)
+			continue
+		}
+		c2.NoEvidence = true
+		ch.Run(c2, o)
+		d2 := 0
+		for _, ob := range c2.Obls {
+			if ob.Verdict == core.Discharged {
+				d2++
+				continue
+			}
+			if base[ob.Key] == ob.Verdict {
+				continue // same undischarged obligation as in the default configuration: reported once
+			}
+			nob := *ob
+			nob.Key = "[" + cfg.Name + "] " + ob.Key
+			c.Obls = append(c.Obls, &nob)
+		}
+		cfgs = append(cfgs, cfgRes{Name: cfg.Name, Obligations: len(c2.Obls), Discharged: d2})
+	}
+	c.Extra["configurations"] = cfgs
+
+	// ---- sensitivity
+	type varRes struct {
+		Name     string `json:"name"`
+		Summary  string `json:"summary,omitempty"`
+		Applied  bool   `json:"applied"`
+		Detected bool   `json:"detected"`
+		Report   string `json:"first_report,omitempty"`
+	}
+	dirs, _ := filepath.Glob(filepath.Join(o.Verif, "seeded", "*"))
+	var todo []string
+	for _, d := range dirs {
+		b, err := os.ReadFile(filepath.Join(d, "meta.json"))
+		if err != nil {
+			continue
+		}
+		var meta struct {
+			Property   string   `json:"property"`
+			DetectedBy []string `json:"detected_by"`
+		}
+		if json.Unmarshal(b, &meta) != nil {
+			continue
+		}
+		mine := meta.Property == o.Prop
+		for _, p := range meta.DetectedBy {
+			if p == o.Prop {
+				mine = true
+			}
+		}
+		if mine {
+			todo = append(todo, d)
+		}
+	}
+	exe, _ := os.Executable()
+	results := make([]varRes, len(todo))
+	sem := make(chan struct{}, 4)
+	done := make(chan int, len(todo))
+	for i, d := range todo {
+		go func(i int, d string) {
+			sem <- struct{}{}
+			defer func() { <-sem; done <- i }()
+			r := varRes{Name: filepath.Base(d)}
+			if b, err := os.ReadFile(filepath.Join(d, "meta.json")); err == nil {
+				var m struct {
+					Summary string `json:"summary"`
+				}
+				json.Unmarshal(b, &m)
+				if len(m.Summary) > 200 {
+					m.Summary = m.Summary[:200] + "…"
+				}
+				r.Summary = m.Summary
+			}
+			tmp, err := os.MkdirTemp("", "sfvariant-")
+			if err != nil {
+				results[i] = r
+				return
+			}
+			defer os.RemoveAll(tmp)
+			scratch := filepath.Join(tmp, "repo")
+			// copy of the current working tree (without .git)
+			cp := exec.Command("rsync", "-a", "--exclude", ".git", o.Repo+"/", scratch+"/")
+			if out, err := cp.CombinedOutput(); err != nil {
+				r.Report = "copy failed: " + string(out)
+				results[i] = r
+				return
+			}
+			ap := exec.Command("git", "apply", "--whitespace=nowarn", filepath.Join(d, "patch.diff"))
+			ap.Dir = scratch
+			if out, err := ap.CombinedOutput(); err != nil {
+				r.Report = "patch does not apply to the current tree: " + strings.TrimSpace(string(out))
+				results[i] = r
+				return
+			}
+			r.Applied = true
+			run := exec.Command(exe, "-property", o.Prop, "-tier", "quick", "-repo", scratch, "-verif", o.Verif, "-no-evidence")
+			out, err := run.CombinedOutput()
+			if err != nil {
+				r.Detected = true
+				for _, l := range strings.Split(string(out), "\n") {
+					if strings.HasPrefix(l, "  ") {
+						r.Report = strings.ReplaceAll(strings.TrimSpace(l), scratch+"/", "")
+						if len(r.Report) > 300 {
+							r.Report = r.Report[:300] + "…"
+						}
+						break
+					}
+				}
+			}
+			results[i] = r
+		}(i, d)
+	}
+	for range todo {
+		<-done
+	}
+	applied, detected := 0, 0
+	for _, r := range results {
+		if r.Applied {
+			applied++
+		}
+		if r.Detected {
+			detected++
+		}
+	}
+	c.Extra["variants"] = results
+	c.Extra["variants_applied"] = applied
+	c.Extra["variants_detected"] = detected
+	fmt.Printf("sfcheck %s thorough: %d configurations; sensitivity: %d seeded changes applied to a scratch copy of the current tree, %d detected\n", o.Prop, len(cfgs), applied, detected)
 }
